@@ -122,6 +122,7 @@ OPS_DEPS = {
     "ops_pipe.c": [],
     "ops_pipefile.c": ["shim_run_kalign.c"],
     "ops_cli.c": ["shim_run_kalign.c"],
+    "ops_f32.c": [],
     "ops_weave.c": [],
     "ops_ref.c": [],
     "ops_sys.c": [],
